@@ -30,17 +30,22 @@ RedW == [T \in Ts |-> {w \in AllW[T] : /\ w.tmin \in {0, 1} /\ w.tmax \in {4, 5,
 SmallW == [T \in Ts |-> {w \in RedW[T] : w.tmin = 1 /\ w.tmax \in {4, 5} /\ w.latmin # 10}]
 
 G == [op |-> "set_global_window"]
+\* data.set_window(data.window()); after windows whose view is a single sample / a single latitude / longitude
+C == [op |-> "set_window_current"]
+DegW(T) == {W(3, 5, -5, 20, 0, 30), W(-1, 2 * T - 1, 6, 12, 0, 30), W(-1, 2 * T - 1, -6, 25, 14, 16),
+            W(3, 5, 6, 12, 0, 30), W(1, 5, 6, 12, 1, 30)}
 SW(w) == [op |-> "set_window", w |-> w]
+HC(T) == {<<C>>} \cup {<<SW(a), C>> : a \in DegW(T) \cup RedW[T]} \cup {<<SW(a), C, C>> : a \in DegW(T)}
 H1(T) == {<<SW(w)>> : w \in AllW[T]} \cup {<<G>>}
 H2(T) == {<<SW(a), SW(b)>> : a \in RedW[T], b \in RedW[T]}
            \cup {<<SW(a), G>> : a \in RedW[T]} \cup {<<SW(a), G, SW(a)>> : a \in SmallW[T]}
 H3(T) == {<<SW(a), SW(b), SW(c)>> : a \in SmallW[T], b \in SmallW[T], c \in SmallW[T]}
 \* every history is run on two data sets: (cycle, anomalies flag) picked from its content
 HashW(h) == Sum(LAMBDA k : IF h[k].op = "set_window"
-                             THEN h[k].w.tmin + 2 * h[k].w.tmax + h[k].w.latmax + h[k].w.lonmin ELSE 7,
+                             THEN h[k].w.tmin + 2 * h[k].w.tmax + h[k].w.latmax + h[k].w.lonmin + 8 ELSE 7,
                 1..Len(h))
 Behaviours == UNION {{[data |-> Data(T, ((HashW(h) + v) % 4) + 1, (((HashW(h) \div 4) + v) % 2)), steps |-> h]
-                      : h \in H1(T) \cup H2(T) \cup H3(T), v \in {0, 1}} : T \in Ts}
+                      : h \in H1(T) \cup H2(T) \cup H3(T) \cup HC(T), v \in {0, 1}} : T \in Ts}
 Cases == SetToSeq(Behaviours)
 Numbered == [k \in 1..Len(Cases) |-> [case |-> "d" \o ToString(k)] @@ Cases[k]]
 ASSUME ndJsonSerialize(IOEnv.GEN_OUT, Numbered)
